@@ -118,6 +118,10 @@ def _sf2(args):
     except Exception as e:
         import traceback
         logging.warn(e)
+        # release the other stripes, which would otherwise wait forever
+        # for this one at the next synchronisation point
+        if barrier is not None:
+            barrier.abort()
         raise Exception("".join(traceback.format_exception(*sys.exc_info())))
 
 
